@@ -465,6 +465,13 @@ Fixpoint announced (cur : option bytes) (hs : list hfield) : option bytes :=
       then announced (Some (snd h)) hs' else announced cur hs'
   end.
 
+(* a header list that the gRPC specification's table rejects: some
+   grpc-encoding value is not one of identity / gzip / deflate / snappy
+   (exact, lower case, no surrounding whitespace) *)
+Definition std_rejects (hs : list hfield) : bool :=
+  existsb (fun h => bytes_eqb (fst h) (list_ascii_of_string "grpc-encoding"%string) &&
+                    match std_enc_of_name (snd h) with None => true | Some _ => false end) hs.
+
 (* oracle for a stream that is not gRPC: the processor is shown nothing and
    the sink receives exactly the DATA frames that were sent *)
 Definition frame_eqb (a b : bytes * bool) : bool :=
